@@ -131,6 +131,28 @@ def main():
         except Exception as ex:  # noqa: BLE001
             out["exn"] = type(ex).__name__ + ": " + str(ex)[:200]
         res["pairs"].append(out)
+    # large tensors (payload beyond 2**20 bytes), generated here from a seed: round trip through every route and agreement
+    # of the routed kernel with the definition (shift / mask / concatenate) on the payload
+    res["big"] = []
+    for bg in payload.get("big", []):
+        g = torch.Generator().manual_seed(bg["seed"])
+        bits = bg["bits"]
+        t = torch.randint(0, 2 ** bits, tuple(bg["shape"]), generator=g, dtype=torch.uint8)
+        out = {"shape": bg["shape"], "bits": bits}
+        try:
+            p = PackedTensor.pack(t, bits)
+            per = 8 // bits
+            out["payload_rows_ok"] = p._data.shape[0] == -(-t.shape[0] // per)
+            out["unpack_ext_on"] = bool(torch.equal(p.unpack(), t))
+            with disable_extensions():
+                out["unpack_ext_off"] = bool(torch.equal(p.unpack(), t))
+            ref = torch.cat([(p._data >> (bits * i)) & (2 ** bits - 1) for i in range(per)], dim=0)
+            out["py_is_definition"] = bool(torch.equal(torch.ops.quanto_py.unpack(p._data, bits), ref))
+            if have_cpp:
+                out["ext_is_definition"] = bool(torch.equal(torch.ops.quanto_ext.unpack(p._data, bits), ref))
+        except Exception as ex:  # noqa: BLE001
+            out["exn"] = type(ex).__name__ + ": " + str(ex)[:200]
+        res["big"].append(out)
     for bc in payload.get("bytes", []):
         t = torch.tensor(bc["data"], dtype=torch.uint8).reshape(bc["shape"])
         bits = bc["bits"]
